@@ -20,7 +20,7 @@ type c07Item struct {
 }
 
 var c07Leaves = []string{"D", "U", "A", "brk", "cont", "ret", "callf", "callg"}
-var c07Containers = []string{"if", "for3", "forr", "forj", "sw", "fnfx", "fnfi", "fng", "fngi", "fnfxx", "for3v", "for3c"}
+var c07Containers = []string{"if", "for3", "forr", "forj", "sw", "fnfx", "fnfi", "fng", "fngi", "fnfxx", "fnfxy", "for3v", "for3c"}
 
 func c07Blocks(kind string) int {
 	if kind == "sw" {
@@ -223,12 +223,12 @@ func (s *c07Scoper) item(it c07Item, depth int) {
 		s.block(it.kids[0], depth+1)
 		s.loopDepth--
 		s.pop()
-	case "fnfx", "fnfi", "fng", "fngi", "fnfxx":
+	case "fnfx", "fnfi", "fng", "fngi", "fnfxx", "fnfxy":
 		name := "f"
 		if it.kind == "fng" || it.kind == "fngi" {
 			name = "g"
 		}
-		if it.kind == "fnfxx" {
+		if it.kind == "fnfxx" || it.kind == "fnfxy" {
 			s.rej("second parameter of the same name")
 			return
 		}
@@ -289,7 +289,7 @@ func c07Judge(items []c07Item) (c07Verdict, string) {
 type c07Builder struct {
 	needTwo bool
 	marker  int
-	funcs  map[string]string
+	funcs   map[string]string
 }
 
 func (b *c07Builder) mark() Stmt {
@@ -325,6 +325,8 @@ func (b *c07Builder) item(it c07Item, depth int) []Stmt {
 		switch b.funcs["f"] {
 		case "fnfxx":
 			return []Stmt{ExprStmt{X: Call{Fn: "f", Args: []Expr{IntLit{id}, IntLit{id + 1}}}}}
+		case "fnfxy":
+			return []Stmt{ExprStmt{X: Call{Fn: "f", Args: []Expr{IntLit{id}, BoolLit{true}, SliceLit{Elem: TStr}}}}}
 		case "fnfx":
 			return []Stmt{ExprStmt{X: Call{Fn: "f", Args: []Expr{IntLit{id}}}}}
 		case "fnfi":
@@ -358,12 +360,15 @@ func (b *c07Builder) item(it c07Item, depth int) []Stmt {
 		j := fmt.Sprintf("j%d", depth)
 		return []Stmt{For{Init: Define{Names: []string{j}, Form: DefShort, Vals: []Expr{IntLit{0}}}, Cond: Binary{Op: "<", L: Var{j}, R: IntLit{1}}, Post: IncDec{Name: j, Inc: true},
 			Body: append([]Stmt{b.mark()}, b.block(it.kids[0], depth+1)...)}}
-	case "fnfx", "fnfi", "fng", "fngi", "fnfxx":
+	case "fnfx", "fnfi", "fng", "fngi", "fnfxx", "fnfxy":
 		name := "f"
 		if it.kind == "fng" || it.kind == "fngi" {
 			name = "g"
 		}
 		fd := FuncDef{Name: name}
+		if it.kind == "fnfxy" { // the same name again with another type, not adjacent
+			fd.Params = []Param{{"x", TInt}, {"z", TBool}, {"x", Type{Base: "string", Slice: true}}}
+		}
 		if it.kind == "fnfx" {
 			fd.Params = []Param{{"x", TInt}}
 		}
